@@ -150,10 +150,11 @@ func (c *Case) Inconclusive(reason string) { c.B.Inconclusive[reason]++ }
 // AuditSample keeps a bounded sample of (input, model verdict) records; the driver hands them to
 // oracle/audit.py (python jsonschema) in the thorough tier to audit the reference model.
 func (c *Case) AuditSample(v any) {
+	limit := 60
 	if c.Tier != Thorough && os.Getenv("VERIF_AUDIT") == "" {
-		return
+		limit = 8 // quick tier: a small sample (a second or two of python)
 	}
-	if len(c.B.Audit) >= 60 {
+	if len(c.B.Audit) >= limit {
 		return
 	}
 	if data, err := json.Marshal(v); err == nil && len(data) < 20000 {
